@@ -390,7 +390,118 @@ func checkSortDelegation(c *Ctx, r *Rec) {
 					}
 				}
 			}
-			r.check(okDel, "D3-live-delegation", c.fdName(fd), c.pos(fd.Pos()), "storage."+name+"(same arguments)", "the method is not a direct delegation to the storage's "+name+" with its own arguments")
+			if okDel {
+				r.ok("D3-live-delegation", c.fdName(fd), c.pos(fd.Pos()), "storage."+name+"(same arguments)")
+				continue
+			}
+			// not the one-line delegation: judge by what can be seen to be wrong
+			ordering := map[string]bool{"SortValues": true, "SortValuesWithRanker": true, "ReverseValues": true, "ShuffleValues": true}
+			var calls []string
+			onCopy, passesParams := "", true
+			ast.Inspect(fd.Body, func(x ast.Node) bool {
+				rx, mname, call, ok := methodCall(x)
+				if !ok || !ordering[mname] {
+					return true
+				}
+				calls = append(calls, mname)
+				if _, inner, _, ok := methodCall(ast.Unparen(resolveInit(info, fd, rx))); ok && inner == "AsArray" {
+					onCopy = exprStr(rx)
+				}
+				for _, p := range params {
+					used := false
+					for _, a := range call.Args {
+						if nodeHas(a, func(y ast.Node) bool { id, ok := y.(*ast.Ident); return ok && info.Uses[id] == types.Object(p) }) {
+							used = true
+						}
+					}
+					if !used {
+						passesParams = false
+					}
+				}
+				// a Go array handed to a sorter: it must be the live storage, not a copy
+				for _, a := range call.Args {
+					if _, inner, _, ok := methodCall(ast.Unparen(resolveInit(info, fd, a))); ok && inner == "AsArray" {
+						onCopy = exprStr(a)
+					}
+				}
+				return true
+			})
+			bad := ""
+			switch {
+			case len(calls) == 0:
+				bad = "skip: no ordering call is made in the method itself (it may live in a helper)"
+				if len(fd.Body.List) == 0 {
+					bad = "the method has an empty body: the values are not reordered"
+				}
+			case onCopy != "":
+				bad = fmt.Sprintf("the ordering is applied to %s, a copy made by AsArray(): the collection itself keeps its order", onCopy)
+			case !passesParams:
+				bad = "an argument of the method is not handed on to the ordering call: the caller's ranker is ignored"
+			default:
+				for _, cn := range calls {
+					if cn != name && !(name == "SortValues" && cn == "SortValuesWithRanker") {
+						bad = fmt.Sprintf("%s is carried out by %s", name, cn)
+					}
+				}
+			}
+			if bad == "" && len(calls) > 0 {
+				// an early return that skips the ordering may depend on the number of values only
+				g := newFG(info, fd.Body)
+				inspectNoLit(fd.Body, func(x ast.Node) bool {
+					rs, ok := x.(*ast.ReturnStmt)
+					if !ok || bad != "" {
+						return true
+					}
+					after := false // is the return preceded by an ordering call on every path?
+					ast.Inspect(fd.Body, func(y ast.Node) bool {
+						if _, mname, call, ok := methodCall(y); ok && ordering[mname] && g.nodeDominates(call, rs) {
+							after = true
+						}
+						return true
+					})
+					if after {
+						return true
+					}
+					pt, ok := g.locate(rs)
+					if !ok {
+						return true
+					}
+					for _, ec := range g.edgeConds(pt) {
+						sizeTest := nodeHas(ec.cond, func(y ast.Node) bool {
+							if call, ok := y.(*ast.CallExpr); ok {
+								if isBuiltinCall(info, call, "len") {
+									return true
+								}
+								if _, mname, _, ok := methodCall(call); ok && (mname == "GetSize" || mname == "IsEmpty") {
+									return true
+								}
+							}
+							return false
+						})
+						if id, isId := ast.Unparen(ec.cond).(*ast.Ident); isId && !sizeTest {
+							// a local: resolve one step
+							if init := initOf(info, fd, id); init != nil {
+								sizeTest = nodeHas(init, func(y ast.Node) bool {
+									if call, ok := y.(*ast.CallExpr); ok {
+										if isBuiltinCall(info, call, "len") {
+											return true
+										}
+										if _, mname, _, ok := methodCall(call); ok && (mname == "GetSize" || mname == "IsEmpty") {
+											return true
+										}
+									}
+									return false
+								})
+							}
+						}
+						if !sizeTest {
+							bad = fmt.Sprintf("the return at %s skips the ordering depending on `%s`, which is not a test of the number of values: whether %s reorders depends on what was called before", c.pos(rs.Pos()), exprStr(ec.cond), name)
+						}
+					}
+					return true
+				})
+			}
+			r.verdict("D3-live-delegation", c.fdName(fd), c.pos(fd.Pos()), "carried out by the same-named ordering of the live storage (or, for the natural order, by SortValuesWithRanker) with the method's own arguments", bad)
 		}
 	}
 	r.floor("D3-live-delegation", 12)
